@@ -50,7 +50,7 @@ def vector_instrs(reg):
 
 
 UMLAUT_INSTR = "VERIF.N\xd6\xd6P*MIT*UML\xc4UTEN*\xdcBER*DREIUNDZWANZIG*BYTES"     # a custom instruction with a non-ASCII name (harness)
-CUSTOM_INSTRS = ["VERIF.PROBE", "VERIF.NOOP*WITH*A*NAME*LONGER*THAN*ANY*BUILTIN*INSTRUCTION", UMLAUT_INSTR, "VERIF." + "\u00c4\u00d6\u00dc*" * 12 + "NOOP", "VERIF.MyInstruction"]
+CUSTOM_INSTRS = ["VERIF.PROBE", "VERIF.NOOP*WITH*A*NAME*LONGER*THAN*ANY*BUILTIN*INSTRUCTION", UMLAUT_INSTR, "VERIF." + "\u00c4\u00d6\u00dc*" * 12 + "NOOP", "VERIF.MyInstruction", "VERIFSQUARE", "verif.lower", "2VERIF"]
 RAND = ["BOOLEAN.RAND", "INTEGER.RAND", "FLOAT.RAND", "NAME.RAND", "NAME.RANDBOUNDNAME", "BOOLVECTOR.RAND", "INTVECTOR.RAND", "FLOATVECTOR.RAND"]
 LISTREC = ["LIST.ADD", "LIST.SET"]
 LISTVAL = ["LIST.REMOVE", "LIST.GET", "LIST.BVAL", "LIST.IVAL", "LIST.FVAL"]
@@ -157,6 +157,18 @@ def code_point_cases(ctx, n):
                         swap(g.r.choice(x["v"]))
                 swap(needle)
         repl = nested_tree(g, g.r.randint(1, 3))
+        if i % 5 == 4:      # related operands: the pattern wraps the substitute, the target holds a wrapped pattern
+            def wrap(x):
+                sib = [nested_tree(g, 1) for _ in range(g.r.randint(0, 2))]
+                k2 = g.r.randint(0, len(sib))
+                return {"k": "list", "v": sib[:k2] + [x] + sib[k2:]}
+            wrapper_seed = g.r.randint(0, 10 ** 9)
+            def ctx(x):       # the same context applied to different fillers
+                st = g.r.getstate(); g.r.seed(wrapper_seed); out = wrap(x); g.r.setstate(st); return out
+            repl = nested_tree(g, g.r.randint(1, 2))
+            needle = ctx(repl)
+            t = wrap(wrap(ctx(needle))) if g.r.random() < 0.5 else {"k": "list", "v": [ctx(needle), needle, ctx(ctx(needle))]}
+            pts = points_of(t); k = g.r.randrange(len(pts))
         for name, code, ints in (("CODE.POSITION", [t, needle], []), ("CODE.CONTAINER", [t, needle], []), ("CODE.CONTAINS", [t, needle], []),
                                  ("CODE.MEMBER", [needle, t], []), ("CODE.SUBST", [t, repl, needle], []),
                                  ("CODE.EXTRACT", [t], [g.r.choice([k, k, -k, k + len(pts), g.r.randint(-40, 40)])]),
@@ -300,6 +312,24 @@ def run_c09(ctx):
     run_events(ctx, "rand_vector_wide", random_instr_cases(ctx, instrs, 10 if q else 300, ctx.seed + 7))
     run_events(ctx, "vector_sequences", vector_sequence_cases(ctx, 60 if q else 3000))
     run_events(ctx, "long_vectors", long_vector_cases(ctx, 3 if q else 60, ctx.seed + 29))
+    run_events(ctx, "aba_triples", aba_cases(ctx, instrs, 2 if q else 40, ctx.seed + 33))
+
+
+def aba_cases(ctx, instrs, n_each, seed):
+    """every instruction on operands A, then on other operands B, then on A again (consecutive cases share the
+    executor process and its instruction set): the third result must be the first"""
+    g = gen.Gen(seed, ctx.registry, small_ints=True)
+    cases = []
+    for name in instrs:
+        for i in range(n_each):
+            a, b = g.state(depth=3), g.state(depth=3)
+            for s in (a, b):
+                s["int"] = [g.r.randint(1, 9), g.r.randint(0, 5), g.r.randint(1, 4)] + s["int"]
+                s["float"] = [gen.f2b(g.r.choice([0.5, 1.0, 2.0, 0.25])), gen.f2b(g.r.choice([0.0, 1.0, 3.0]))] + s["float"]
+                s["exec"] = [ins(name)]
+            for tag, s in (("a1", a), ("b", b), ("a2", a)):
+                cases.append({"id": "aba-%s-%d-%s" % (name, i, tag), "pre": s, "acts": [{"a": "step"}]})
+    return cases
 
 
 def list_roundtrip_cases(ctx, n):
@@ -817,7 +847,7 @@ WS_CHARS = [" ", "\t", "\n", "\r", "\u000b", "\u000c", "\u0085", "\u00a0", "\u16
 ODD_TOKENS = ["(", ")", "(", ")", "INT[", "INT[]", "INT[1,2]", "INT[1,2}", "INT[1,,2]", "INT[\u00e9", "INT[1\u00e9", "BOOL[", "BOOL[1,0,true,false]", "BOOL[TRUE]",
               "FLOAT[", "FLOAT[1.5,-0.25]", "FLOAT[1e3,nan]", "FLOAT[x]", "\u00e9]", "\u00e9", "na\u00efve", "\u4e2d\u6587", "(x", "x)", "()", "1", "-1", "+1", "007",
               "2147483647", "2147483648", "-2147483648", "-2147483649", "1.5", "-0.125", ".5", "5.", "1e3", "1E-2", "inf", "-Infinity", "NaN", "nan", "infinit", "1.2.3", "1e", "--1",
-              "TRUE", "FALSE", "true", "INTEGER.+", "CODE.QUOTE", "VERIF.PROBE", "VERIF.NOOP*WITH*A*NAME*LONGER*THAN*ANY*BUILTIN*INSTRUCTION", UMLAUT_INSTR, CUSTOM_INSTRS[3], CUSTOM_INSTRS[4], "verif.myinstruction", "GRAPH.NODE*PREDECESSORS", "EXEC.DO*COUNT", "integer.+", "foo", "foo-bar", "x1", "[1,2]", "BOOLVECTOR.AND", "NOOP"]
+              "TRUE", "FALSE", "true", "INTEGER.+", "CODE.QUOTE", "VERIF.PROBE", "VERIF.NOOP*WITH*A*NAME*LONGER*THAN*ANY*BUILTIN*INSTRUCTION", UMLAUT_INSTR, CUSTOM_INSTRS[3], CUSTOM_INSTRS[4], CUSTOM_INSTRS[5], CUSTOM_INSTRS[6], CUSTOM_INSTRS[7], "verif.myinstruction", "VERIFSQUAR", "2verif", "GRAPH.NODE*PREDECESSORS", "EXEC.DO*COUNT", "integer.+", "foo", "foo-bar", "x1", "[1,2]", "BOOLVECTOR.AND", "NOOP"]
 
 
 def random_text(g, maxtok):
